@@ -1442,6 +1442,74 @@ fn gen_val(r: &mut Xoshiro, m: &BigUint, limbs: usize) -> Vec<u64> {
 
 const LOCKSTEP_WIDTHS: [usize; 8] = [1, 2, 3, 4, 6, 8, 16, 32];
 
+/// Focus batch: long multiplicative chains (new / mul / square / multiplier object / pow) on the moduli with the
+/// least slack for an almost-Montgomery intermediate — 0, 1 or 2 leading zero bits — on the runtime and boxed
+/// replicas, widths 1..4 and boxed 1..9. Same executor and oracles as the general batch.
+pub struct MulChain;
+
+impl TypedScenario for MulChain {
+    type Plan = Plan;
+    fn name(&self) -> &'static str {
+        "c08-mulchain"
+    }
+    fn chunk(&self) -> u64 {
+        16
+    }
+    fn n_runs(&self, tier: Tier) -> u64 {
+        match tier {
+            Tier::Quick => 20_000,
+            Tier::Thorough => 4_000_000,
+        }
+    }
+    fn generate(&self, seed: u64, _tier: Tier, i: u64) -> Plan {
+        let mut r = Xoshiro::new(mix(seed, 0x08C, i));
+        let boxed_only = r.chance(1, 3);
+        let limbs = if boxed_only { r.range(1, 9) as usize } else { *r.pick(&[1usize, 1, 2, 2, 3, 4]) };
+        let lz = *r.pick(&[0usize, 1, 1, 1, 2]);
+        let mut w: Vec<u64> = (0..limbs).map(|_| r.next()).collect();
+        w[0] |= 1;
+        w[limbs - 1] |= 1 << 63;
+        if r.chance(1, 4) {
+            // top limb all ones below the leading zeros
+            w[limbs - 1] = u64::MAX;
+        }
+        let m = big(&w) >> lz;
+        let modulus = to_words_n(&(m.clone() | BigUint::one()), limbs);
+        let mb = big(&modulus);
+        let reg = |r: &mut Xoshiro| r.below(REGS as u64) as usize;
+        let mut ops = Vec::new();
+        // mostly random residues here: the special values are the general batch's business
+        let rv = |r: &mut Xoshiro| -> Vec<u64> {
+            if r.chance(1, 4) { gen_val(r, &mb, limbs) } else { (0..limbs).map(|_| r.next()).collect() }
+        };
+        for d in 0..4 {
+            ops.push(Op::New { dst: d, val: rv(&mut r) });
+        }
+        let n_ops = r.range(16, 64) as usize;
+        while ops.len() < n_ops {
+            ops.push(match r.below(10) {
+                0 => Op::New { dst: reg(&mut r), val: rv(&mut r) },
+                1 | 2 => Op::Bin { kind: Bin::Mul, dst: reg(&mut r), a: reg(&mut r), b: reg(&mut r), form: r.below(7) as u8 },
+                3 => Op::Un { kind: Un::Square, dst: reg(&mut r), a: reg(&mut r), form: r.below(3) as u8 },
+                4 => Op::MulM { dst: reg(&mut r), b: reg(&mut r) },
+                5 => Op::SquareM { dst: reg(&mut r) },
+                6 => Op::Bin { kind: *r.pick(&[Bin::Add, Bin::Sub]), dst: reg(&mut r), a: reg(&mut r), b: reg(&mut r), form: 0 },
+                _ => {
+                    let bits = *r.pick(&[64u32, 64, 63, 33, 17, 8, 5]);
+                    Op::Pow { dst: reg(&mut r), a: reg(&mut r), exp: r.next(), bits }
+                }
+            });
+        }
+        Plan { limbs, modulus_id: None, modulus, src_dyn: *r.pick(&[ParamsSrc::New, ParamsSrc::NewVartime]), src_boxed: *r.pick(&[ParamsSrc::New, ParamsSrc::NewVartime]), share_arc: r.chance(1, 2), boxed_only, ops }
+    }
+    fn exec(&self, plan: &Plan, out: &mut RunOut) {
+        exec(plan, out);
+    }
+    fn shrink(&self, p: &Plan) -> Vec<Plan> {
+        History { faults: false }.shrink(p)
+    }
+}
+
 impl TypedScenario for History {
     type Plan = Plan;
     fn name(&self) -> &'static str {
